@@ -60,6 +60,8 @@ ValueEdit == Rec([op |-> "valueedit"]) /\ UNCHANGED <<mode, amode, parser, pref>
 ProfileRoundTrip == Rec([op |-> "profileaddremove"]) /\ UNCHANGED <<mode, amode, parser, pref>>
 \* the default profiles are switched to CSS 2.1, the battery's declarations are validated, the default is switched back
 ProfileSwitch == Rec([op |-> "profileswitch"]) /\ UNCHANGED <<mode, amode, parser, pref>>
+\* a serialisation that ends in an exception (validOnly + a profile whose validator function raises); profile and preference are put back
+SerializeRaises == Rec([op |-> "serializeraises"]) /\ UNCHANGED <<mode, amode, parser, pref>>
 \* csscombine works with a private serializer: whatever its arguments, the user's serializer and preferences stay as they are
 Combine(f, m, rv) == Rec([op |-> "combine", fault |-> f, minify |-> m, resolve |-> rv]) /\ UNCHANGED <<mode, amode, parser, pref>>
 \* a tokenizer built with its own macros (a compiled-production cache sits behind it): later tokenizers must not see it
@@ -73,7 +75,7 @@ Next == \/ \E p \in Parsers, r \in BOOLEAN : NewParser(p, r)
         \/ \E b \in BOOLEAN : SetMode(b)
         \/ \E p \in Parsers, e \in Entries \ {"module"}, f \in Faults : Parse(p, e, f)
         \/ \E f \in Faults : ParseModule(f)
-        \/ DomEdit \/ MQEdit \/ Serialize \/ Probe \/ ValueEdit \/ ProfileRoundTrip \/ ProfileSwitch
+        \/ DomEdit \/ MQEdit \/ Serialize \/ Probe \/ ValueEdit \/ ProfileRoundTrip \/ ProfileSwitch \/ SerializeRaises
         \/ \E f \in {"none", "missingfile"}, m \in BOOLEAN, rv \in BOOLEAN : Combine(f, m, rv)
         \/ \E v \in {"A", "B"} : CustomTokenizer(v)
         \/ \E v \in {"default", "minified", "nocomments"} : SetPref(v)
